@@ -440,6 +440,12 @@ class Reconfigure:
                 repo.fetch(
                     self.local_branch.repository, self.local_branch.last_revision()
                 )
+                if self.tree is not None and not self._destroy_tree:
+                    # The tree's pending merges refer to revisions as well;
+                    # without them a later commit would record ghosts.
+                    for revision_id in self.tree.get_parent_ids()[1:]:
+                        if self.local_branch.repository.has_revision(revision_id):
+                            repo.fetch(self.local_branch.repository, revision_id)
         else:
             repo = self.repository
         if self._create_branch and self.referenced_branch is not None:
